@@ -26,7 +26,8 @@ func (db *DB) VerifKill() {
 		}
 		break
 	}
-	db.oracle.Stop()
+	db.oracle.readMark.VerifStopNoWait()
+	db.oracle.commitMark.VerifStopNoWait()
 }
 
 // VerifIdle reports whether no frozen memtable is waiting to be flushed.
